@@ -32,8 +32,8 @@ theorem lit_UTC : "UTC".toList = ['U', 'T', 'C'] := by decide
 theorem lit_TZD : "TZD".toList = ['T', 'Z', 'D'] := by decide
 
 /-- on a string over the `isoformat()` alphabet the clean-up steps of `to_datetime` do nothing -/
-theorem toDatetime_iso (cfg : Cfg) (P : Prims) (df : Bool) (s : Str) (h : s.all isoChar = true) :
-    toDatetime cfg P df s =
+theorem toDatetime_iso (cfg : Cfg) (m : Mode) (P : Prims) (df : Bool) (s : Str) (h : s.all isoChar = true) :
+    toDatetime cfg m P df s =
       (let formats := if df then DATE_FORMATS ++ DATETIME_FORMATS else DATETIME_FORMATS ++ DATE_FORMATS
        match firstFormat P s [] formats with
        | some v => .ok v
@@ -41,7 +41,8 @@ theorem toDatetime_iso (cfg : Cfg) (P : Prims) (df : Bool) (s : Str) (h : s.all 
          let signed := contains ['+'] s || (cfg.negOffset && contains ['-'] s)
          match (if signed then firstFormat P s "%z".toList formats else none) with
          | some v => .ok v
-         | none => if P.floatParses s then .unmodelled "datetime from a numeric string (timestamp)" else .perr) := by
+         | none => if m.noExplicitCast then .perr else if s.isEmpty then .ok epochUtc
+            else if P.floatParses s then .unmodelled "datetime from a numeric string (timestamp)" else .perr) := by
   have hG : 'G' ∉ s := not_mem_of_isoChar h (by decide)
   have hU : 'U' ∉ s := not_mem_of_isoChar h (by decide)
   have hZ : 'Z' ∉ s := not_mem_of_isoChar h (by decide)
@@ -71,9 +72,9 @@ theorem sign_mem_isoDateTime (dt : DateTime) (o : Int) (h : dt.tz = some o) :
     (if o < 0 then '-' else '+') ∈ isoDateTime dt := by
   simp [isoDateTime, h, isoTz, isoOffset]
 
-theorem rt_datetime (P : Prims) (hP : PrimLaws P) (dt : DateTime) (hv : dt.valid = true) :
-    toDatetime Cfg.fixed P false (isoDateTime dt) = .ok dt := by
-  rw [toDatetime_iso _ _ _ _ (all_isoChar_isoDateTime dt)]
+theorem rt_datetime (P : Prims) (hP : PrimLaws P) (m : Mode) (dt : DateTime) (hv : dt.valid = true) :
+    toDatetime Cfg.fixed m P false (isoDateTime dt) = .ok dt := by
+  rw [toDatetime_iso _ _ _ _ _ (all_isoChar_isoDateTime dt)]
   simp only [Bool.false_eq_true, ↓reduceIte]
   change (match firstFormat P (isoDateTime dt) [] allFormats with
     | some v => Res.ok v
@@ -106,7 +107,7 @@ theorem rt_datetime (P : Prims) (hP : PrimLaws P) (dt : DateTime) (hv : dt.valid
 theorem rt_date (P : Prims) (hP : PrimLaws P) (m : Mode) (d : Date) (hv : d.valid = true) :
     toDate Cfg.fixed m P (isoDate d) = .ok d := by
   unfold toDate
-  rw [toDatetime_iso _ _ _ _ (all_isoChar_isoDate d)]
+  rw [toDatetime_iso _ _ _ _ _ (all_isoChar_isoDate d)]
   have : firstFormat P (isoDate d) [] (DATE_FORMATS ++ DATETIME_FORMATS) = some ⟨d, midnight, none⟩ :=
     firstFormat_head P (isoDate d) [] "%Y-%m-%d".toList _ _ (by rw [List.append_nil]; exact hP.date_fmt d hv)
   simp only [↓reduceIte, this, bind]
@@ -123,8 +124,8 @@ theorem colon_mem_fromTime (t : TimeV) : ':' ∈ fromTime Cfg.fixed t := by
   · simp [Cfg.fixed, colon_mem_isoClockMs]
   · simp [isoTime, colon_mem_isoClock]
 
-theorem rt_time (P : Prims) (hP : PrimLaws P) (t : TimeV) (hv : t.valid = true) (hz : tzWholeOrBig t.tz = true)
-    (hms : t.clock.us % 1000 = 0) : toTime Cfg.fixed P (fromTime Cfg.fixed t) = .ok t := by
+theorem rt_time (P : Prims) (hP : PrimLaws P) (m : Mode) (t : TimeV) (hv : t.valid = true) (hz : tzWholeOrBig t.tz = true)
+    (hms : t.clock.us % 1000 = 0) : toTime Cfg.fixed m P (fromTime Cfg.fixed t) = .ok t := by
   unfold toTime
   rw [contains_singleton_of_mem (colon_mem_fromTime t), hP.time_iso t hv hz hms]
   rfl
@@ -132,8 +133,11 @@ theorem rt_time (P : Prims) (hP : PrimLaws P) (t : TimeV) (hv : t.valid = true) 
 theorem rt_delta (P : Prims) (hP : PrimLaws P) (m : Mode) (us : Int) (h : us.natAbs < maxDelta) :
     toTimedelta m P (durationIso us) = .ok us := by
   obtain ⟨g, hg, hsign, htd⟩ := hP.dur_iso us h
+  have hne : (durationIso us).isEmpty = false := by
+    unfold durationIso
+    by_cases h0 : us < 0 <;> simp [h0]
   unfold toTimedelta
-  simp only [hP.dur_float us, hP.dur_re0 us, hg, htd, Bool.and_false, Bool.false_eq_true, ↓reduceIte]
+  simp only [hne, hP.dur_float us, hP.dur_re0 us, hg, htd, Bool.and_false, Bool.false_eq_true, ↓reduceIte]
   by_cases hneg : us < 0
   · have : (g.sign == ['-']) = true := by simpa [hneg] using hsign
     simp only [this, ↓reduceIte]
@@ -148,22 +152,23 @@ theorem Dec.canon_zero (neg : Bool) (e : Int) : (Dec.fin neg 0 e).canon = .fin f
 
 theorem rt_dec (P : Prims) (hP : PrimLaws P) (m : Mode) (d : Dec) (hd : d.inDomain Cfg.fixed = true) :
     ∃ d', toDecimal m P (fromDecimal Cfg.fixed P d) = .ok d' ∧ d'.canon = d.canon := by
-  have hstr : ∀ d : Dec, toDecimal m P (.str (P.decStr d)) = .ok d := by
-    intro d
+  have hstr : ∀ d : Dec, d.expOk = true → toDecimal m P (.str (P.decStr d)) = .ok d := by
+    intro d hok
     have hc := hP.dec_str_clean d
     have hne : (P.decStr d).isEmpty = false := by
       cases h : P.decStr d with
       | nil => exact absurd h hc.2
       | cons _ _ => rfl
-    simp [toDecimal, hne, hc.1, hP.dec_str d]
+    simp [toDecimal, hne, hc.1, hP.dec_str d hok]
   cases d with
   | nan => simp [Dec.inDomain] at hd
-  | inf neg => exact ⟨_, hstr _, rfl⟩
+  | inf neg => exact ⟨_, hstr _ rfl, rfl⟩
   | fin neg c e =>
     simp only [Dec.inDomain, Bool.and_eq_true, decide_eq_true_eq] at hd
+    have hok : (Dec.fin neg c e).expOk = true := by simp [Dec.expOk, hd.1.2]
     unfold fromDecimal
     by_cases hu : jsUnsafe c e = true
-    · simp only [hu, ↓reduceIte]; exact ⟨_, hstr _, rfl⟩
+    · simp only [hu, ↓reduceIte]; exact ⟨_, hstr _ hok, rfl⟩
     · simp only [hu, Bool.false_eq_true, ↓reduceIte]
       by_cases he : (e == 0) = true
       · simp only [he, ↓reduceIte]
@@ -182,9 +187,9 @@ theorem rt_dec (P : Prims) (hP : PrimLaws P) (m : Mode) (d : Dec) (hd : d.inDoma
             simp [h2]
       · simp only [he, Bool.false_eq_true, ↓reduceIte]
         by_cases ht : decTiny c e = true
-        · simp only [Cfg.fixed, ht, Bool.and_self, ↓reduceIte]; exact ⟨_, hstr _, rfl⟩
+        · simp only [Cfg.fixed, ht, Bool.and_self, ↓reduceIte]; exact ⟨_, hstr _ hok, rfl⟩
         · simp only [ht, Bool.and_false, Bool.false_eq_true, ↓reduceIte]
-          obtain ⟨_, hz, hrt⟩ := hP.dec_float neg c e hd.1 (by simpa using hu) (by simpa using ht)
+          obtain ⟨_, hz, hrt⟩ := hP.dec_float neg c e hd.1.1 (by simpa using hu) (by simpa using ht)
           by_cases hzf : (!m.noExplicitCast && (P.floatOfDec (.fin neg c e)).isZero) = true
           · have hz1 : (P.floatOfDec (.fin neg c e)).isZero = true := by
               simp only [Bool.and_eq_true] at hzf; exact hzf.2
@@ -237,6 +242,19 @@ theorem rt_enum (m : Mode) (decl : EnumDecl) (i : Nat) (hwf : decl.wf = true) (h
   | str s =>
     cases hmx : decl.mixin <;> simp [hmx] at hty' <;> cases m <;>
       simp [toEnum, EVal.toJson, hmx, hval, Cfg.fixed, Mode.noExplicitCast, Mode.noDataLoss]
+  | tuple xs =>
+    cases hmx : decl.mixin <;> simp [hmx] at hty'
+
+/-- the member values of a declaration in the domain are JSON scalars -/
+theorem wf_scalar (decl : EnumDecl) (hwf : decl.wf = true) (i : Nat) (mem : Str × EVal)
+    (hm : decl.members[i]? = some mem) : mem.2.toJson.isContainer = false := by
+  simp only [EnumDecl.wf, Bool.and_eq_true, List.all_eq_true] at hwf
+  have := hwf.2 mem (List.mem_of_getElem? hm)
+  obtain ⟨nm, v⟩ := mem
+  cases v with
+  | int _ => rfl
+  | str _ => rfl
+  | tuple xs => cases hmx : decl.mixin <;> simp [hmx] at this
 
 theorem lit0 : "0".toList = natStr 0 := by decide
 theorem lit1 : "1".toList = natStr 1 := by decide
